@@ -35,6 +35,16 @@ where
     }
     sig4.verify(&pk4, msg).map_err(|e| format!("verify after serde_json: {e}"))?;
     n += 1;
+    // the other front ends of the human-readable form: document model, reader, byte slice (owned text)
+    let sk5: SecretKey<C> = serde_json::from_value(serde_json::to_value(sk).map_err(|e| e.to_string())?).map_err(|e| format!("sk json via the document model: {e}"))?;
+    let pk5: PublicKey<C> = serde_json::from_reader(std::io::Cursor::new(serde_json::to_vec(pk).map_err(|e| e.to_string())?)).map_err(|e| format!("pk json via a reader: {e}"))?;
+    let sig5: Signature<C> = serde_json::from_value(serde_json::to_value(sig).map_err(|e| e.to_string())?).map_err(|e| format!("sig json via the document model: {e}"))?;
+    let sig6: Signature<C> = serde_json::from_reader(std::io::Cursor::new(serde_json::to_vec(sig).map_err(|e| e.to_string())?)).map_err(|e| format!("sig json via a reader: {e}"))?;
+    if &sk5 != sk || &pk5 != pk || &sig5 != sig || &sig6 != sig {
+        return Err("serde_json (document model / reader) changed a value".into());
+    }
+    sig5.verify(&pk5, msg).map_err(|e| format!("verify after serde_json (document model / reader): {e}"))?;
+    n += 1;
     // be / le scalar codecs
     let be = sk.to_be_bytes();
     let le = sk.to_le_bytes();
